@@ -245,7 +245,10 @@ class Tr:
             return self.init_block(rest, env)
         if isinstance(s, ast.Assert):
             # assert isinstance(mult, Decimal): true of every power of ten
-            if ast.unparse(s.test) == 'isinstance(mult, Decimal)' and env.get('mult', ('',))[1].startswith('mult'):
+            t = s.test
+            if isinstance(t, ast.Call) and ast.unparse(t.func) == 'isinstance' and len(t.args) == 2 \
+                    and ast.unparse(t.args[1]) == 'Decimal' and isinstance(t.args[0], ast.Name) \
+                    and env.get(t.args[0].id, ('', ''))[1] in self.powers_of_ten:
                 return self.init_block(rest, env)
             fail(s, "assert")
         if isinstance(s, ast.If):
@@ -302,6 +305,8 @@ class Tr:
                 q = self.q(s.value, env)
                 if q:
                     v = self.fresh(t.id)
+                    if q.startswith('(pow10 '):
+                        self.powers_of_ten.add(v)       # a Decimal whatever its name
                     return (f"let {v} := {q} in\n"
                             f"{self.init_block(rest, dict(env, **{t.id: ('q', v)}))}")
                 z = self.z(s.value, env)
@@ -312,6 +317,7 @@ class Tr:
         fail(s, "statement")
 
     n = 0
+    powers_of_ten = set()
 
     def fresh(self, base):
         self.n += 1
@@ -359,6 +365,7 @@ def args_of(m, want):
 def generate(path):
     tree = ast.parse(open(path, encoding='utf-8').read())
     tr = Tr()
+    tr.powers_of_ten = set()
     out = [PRELUDE]
     # properties
     for name, coq, typ in (('rate', 'rate_of_impl', 'Q'), ('inverse_rate', 'inverse_rate_impl', 'Q')):
